@@ -500,7 +500,13 @@ func spec_walk(l *LALR1, q int, r int, k int) int { panic("spec") }
 //@     (exists p int :: 0 <= p && p < len(look) && look[p] == fmt.Sprintf("%s: reduce rule at %d", symLabel(lalr, j), -r[j]))
 //@ loop 2: invariant [C18] forall p int :: 0 <= p && p < len(look) ==>
 //@     (exists j int :: 0 <= j && j < idx2 && r[j] < 0 && look[p] == fmt.Sprintf("%s: reduce rule at %d", symLabel(lalr, j), -r[j]))
-// the accepting cell only decorates the node
-//@ before_stmt [C18] `n.Attrs.Add("style", "filled")` d == len(lalr.G.LR0.LR0Closure) + 200
-// the reduce fields reach the label whenever there are any
-//@ after_stmt [C18] "if len(look) != 0" len(look) != 0 ==> (exists pre string :: graphInst.Nodes.Lookup[fmt.Sprintf("state_%d", stateNum)].Attrs["label"] == pre + fmt.Sprintf("|{%s}\"", strings.Join(look, "|")))
+// at the end of the row: the accepting cell, and only it, decorates the node; the reduce fields reach the label
+// whenever there are any - also for the accepting state
+//@ loop 1: end_of_body [C18] (exists a int :: 0 <= a && a < len(r) && r[a] == len(lalr.G.LR0.LR0Closure) + 200) <==>
+//@     (exists e int :: at_head(xlen) <= e && e < xlen && xlog_fn(e) == "(gographviz.Attrs).Add" && xlog_str(e, 0) == "style" && xlog_str(e, 1) == "filled")
+//@ loop 1: end_of_body [C18] len(look) != 0 ==> (exists pre string :: graphInst.Nodes.Lookup[fmt.Sprintf("state_%d", stateNum)].Attrs["label"] == pre + fmt.Sprintf("|{%s}\"", strings.Join(look, "|")))
+//@ loop 1: end_of_body [C18] forall a int :: 0 <= a && a < len(r) && r[a] < 0 ==>
+//@     (exists p int :: 0 <= p && p < len(look) && look[p] == fmt.Sprintf("%s: reduce rule at %d", symLabel(lalr, a), -r[a]))
+//@ loop 2: invariant [C18] forall e int :: before(xlen) <= e && e < xlen && xlog_fn(e) == "(gographviz.Attrs).Add" ==> (exists j int :: 0 <= j && j < idx2 && r[j] == len(lalr.G.LR0.LR0Closure) + 200)
+//@ loop 2: invariant [C18] forall j int :: 0 <= j && j < idx2 && r[j] == len(lalr.G.LR0.LR0Closure) + 200 ==>
+//@     (exists e int :: before(xlen) <= e && e < xlen && xlog_fn(e) == "(gographviz.Attrs).Add" && xlog_str(e, 0) == "style" && xlog_str(e, 1) == "filled")
